@@ -1132,6 +1132,32 @@ def run(ctx: Any, prog: Program) -> None:
     for f16 in finds:
         ctx.check('C14.X16', f16.func.attr in ('find', 'index'), dmx, f16, f'Element.parse looks for the end of the header with `{U(f16)}`: the block holds the start of the payload too, and the LAST `-->` in it may be part of '
                   'the data (a string or type name containing `-->`), so parsing resumes in the middle of the payload', func='Element.parse', text='header terminator: first occurrence')
+    # ---- X17: the null element is recognised by identity ------------------------------------------------------------------------------------
+    # Element is a Mapping: `==` compares the attribute dicts, and NULL has none - every element without attributes "equals" NULL.  A writer that
+    # tests `subelem == NULL` writes such an element as the null reference (-1): the reference is lost on the round trip.
+    ctx.rule('C14.X17', 'comparisons with the NULL element singleton are identity tests (is / is not)', floor=1)
+    n17 = 0
+    for cmp17 in [c for c in ast.walk(dmx.tree) if isinstance(c, ast.Compare)]:
+        sides = [cmp17.left] + list(cmp17.comparators)
+        for i17, op17 in enumerate(cmp17.ops):
+            a17, b17 = sides[i17], sides[i17 + 1]
+            direct = dotted(a17) == 'NULL' or dotted(b17) == 'NULL'
+            member = isinstance(op17, (ast.In, ast.NotIn)) and isinstance(b17, (ast.Tuple, ast.List, ast.Set)) and any(dotted(e) == 'NULL' for e in b17.elts)
+            if not (direct or member):
+                continue
+            n17 += 1
+            ctx.check('C14.X17', direct and isinstance(op17, (ast.Is, ast.IsNot)), dmx, cmp17, f'`{U(cmp17)}` compares with the NULL element by value: Element equality is Mapping equality (the attribute dicts), so every element '
+                      'without attributes counts as NULL and is written as the null reference', func=(dmx.qualname_of(dmx.enclosing_func(cmp17)) if dmx.enclosing_func(cmp17) is not None else None), text=f'`{U(cmp17)[:40]}` is an identity test')
+    ctx.shape('C14.X17', '__eq__' not in dmx.methods('Element') and '__eq__' not in dmx.methods('StubElement'), dmx, dmx.cls('Element'), 'Element defines its own __eq__: whether `==` with NULL is by value is no longer what the rule assumes (Mapping equality)', text='Element equality is Mapping equality')
+    ctx.shape('C14.X17', n17 >= 1, dmx, dmx.tree, 'no comparison with NULL found in dmx.py (one confirmed by hand: Element.export_binary)', text='NULL comparisons')
+    # ---- X18: ids are taken from the file as they are ------------------------------------------------------------------------------------------
+    # uuid.UUID(..., version=N) overwrites the version and variant bits of the value it is given.  An id read from a file with that keyword is a
+    # different id: references by id (stubs, external elements, the 16 raw bytes of a binary file) no longer match what was written.
+    ctx.rule('C14.X18', 'UUID values are built from file data without the version= keyword (which rewrites bits of the id)', floor=5)
+    for u18 in [c for c in ast.walk(dmx.tree) if isinstance(c, ast.Call) and (dotted(c.func) or '').split('.')[-1] == 'UUID']:
+        kws = {k.arg for k in u18.keywords}
+        ctx.check('C14.X18', 'version' not in kws and None not in kws and len(u18.args) <= 1, dmx, u18, f'`{U(u18)[:60]}` passes version=: uuid.UUID then replaces the version and variant bits, so an id that is not already of that version '
+                  'is read as a different id and exported differently', text=f'`{U(u18)[:40]}` keeps the id bits')
     ctx.rule('C14.X12', 'KV2 reader: every queued reference is given a stub carrying its id, in array and scalar position', floor=2)
     pk = dmx.func('Element._parse_kv2_element')
     for c in [x for x in ast.walk(pk) if isinstance(x, ast.Call) and isinstance(x.func, ast.Attribute) and x.func.attr == 'append' and isinstance(x.func.value, ast.Name) and x.func.value.id in [a.arg for a in pk.args.args]
@@ -1260,6 +1286,8 @@ def run(ctx: Any, prog: Program) -> None:
 
 
 MUTANTS: List[Dict[str, Any]] = [
+    {'id': 'null_compared_by_value', 'file': 'dmx.py', 'find': "                        if subelem is NULL:  # It's a singleton.", 'replace': "                        if subelem == NULL:", 'expect': 'C14.X17', 'note': 'round 11'},
+    {'id': 'uuid_version_forced', 'file': 'dmx.py', 'find': "                            uuid = UUID(binformat.read_nullstr(file))", 'replace': "                            uuid = UUID(binformat.read_nullstr(file), version=4)", 'expect': 'C14.X18', 'note': 'round 11'},
     {'id': 'header_end_found_from_the_right', 'file': 'dmx.py', 'find': "            header_len = header.find(b'-->', -260)", 'replace': "            header_len = header.rfind(b'-->')", 'expect': 'C14.X16'},
     {'id': 'element_indexes_read_in_one_block', 'file': 'dmx.py', 'find': "                    for _ in array_iter:\n                        [ind] = binformat.struct_read('<i', file)\n", 'replace': "                    elem_count = 1 if array_size is None else array_size\n                    for ind in binformat.struct_read(f'<{elem_count}i', file):\n", 'expect': 'C14.X3'},
     {'id': 'string_array_joined_with_terminator', 'file': 'dmx.py', 'find': "                        for text in attr.iter_string():\n                            file.write(text.encode(encoding) + b'\\0')\n", 'replace': "                        file.write(('\\0'.join(attr.iter_string()) + '\\0').encode(encoding))\n", 'expect': 'C14.X3'},
